@@ -313,7 +313,7 @@ class LogicalDataLink(TransmissionControlObject):
             if len(message) > self.send_miu:
                 raise err.Error(errno.EMSGSIZE)
             send_pdu = pdu.UnnumberedInformation(
-                dest, self.addr, data=message)
+                dest, self.addr, data=bytes(message))
             super(LogicalDataLink, self).send(send_pdu, flags)
             return self.state.ESTABLISHED is True
 
@@ -531,7 +531,8 @@ class DataLinkConnection(TransmissionControlObject):
                 self.send_token.wait()
             self.log("send {0} byte on {1}".format(len(message), str(self)))
             if self.state.ESTABLISHED:
-                send_pdu = pdu.Information(self.peer, self.addr, data=message)
+                send_pdu = pdu.Information(self.peer, self.addr,
+                                           data=bytes(message))
                 send_pdu.ns = self.send_cnt
                 self.send_cnt = (self.send_cnt + 1) % 16
                 super(DataLinkConnection, self).send(send_pdu, flags)
